@@ -82,6 +82,14 @@ type Posix struct {
 
 var _ backend.Backend = &Posix{}
 
+// errIncompleteBody is returned when an upload delivered fewer bytes than
+// its declared (decoded) content length
+var errIncompleteBody = s3err.APIError{
+	Code:           "IncompleteBody",
+	Description:    "You did not provide the number of bytes specified by the Content-Length HTTP header.",
+	HTTPStatusCode: http.StatusBadRequest,
+}
+
 const (
 	metaTmpDir          = ".sgwtmp"
 	metaTmpMultipartDir = metaTmpDir + "/multipart"
@@ -2396,12 +2404,17 @@ func (p *Posix) UploadPart(ctx context.Context, input *s3.UploadPartInput) (*s3.
 		}
 	}
 
-	_, err = io.Copy(f, tr)
+	written, err := io.Copy(f, tr)
 	if err != nil {
 		if errors.Is(err, syscall.EDQUOT) {
 			return nil, s3err.GetAPIError(s3err.ErrQuotaExceeded)
 		}
 		return nil, fmt.Errorf("write part data: %w", err)
+	}
+	if written != length {
+		// fewer bytes than declared were received: do not store a short
+		// (and, after fallocate, zero padded) part
+		return nil, errIncompleteBody
 	}
 
 	dataSum := hash.Sum(nil)
@@ -2838,12 +2851,17 @@ func (p *Posix) PutObject(ctx context.Context, po s3response.PutObjectInput) (s3
 		rdr = hashRdr
 	}
 
-	_, err = io.Copy(f, rdr)
+	written, err := io.Copy(f, rdr)
 	if err != nil {
 		if errors.Is(err, syscall.EDQUOT) {
 			return s3response.PutObjectOutput{}, s3err.GetAPIError(s3err.ErrQuotaExceeded)
 		}
 		return s3response.PutObjectOutput{}, fmt.Errorf("write object data: %w", err)
+	}
+	if written != contentLength {
+		// fewer bytes than declared were received: do not commit a short
+		// (and, after fallocate, zero padded) object
+		return s3response.PutObjectOutput{}, errIncompleteBody
 	}
 
 	dir := filepath.Dir(name)
